@@ -2,6 +2,7 @@ import SakuraVerif.Driver.SmfOps
 import SakuraVerif.Driver.DumpOps
 import SakuraVerif.Driver.LenOps
 import SakuraVerif.Driver.MsgOps
+import SakuraVerif.Model.Messages
 import SakuraVerif.Driver.SutOps
 import SakuraVerif.Driver.ExprOps
 import SakuraVerif.Driver.CoreOps
@@ -28,6 +29,7 @@ def handle (line : String) : String :=
   | ["spec.c01", bin, n, tb] => "ok " ++ specC01 (unhex bin) (parseNat n) (parseNat tb)
   | ["spec.c02", bin, pf, tracks] => "ok " ++ specC02 (unhex bin) (parseInt pf) (parseTracks tracks)
   | ["playfrom", p, evs] => "ok ev=" ++ showEvents (playFrom (parseInt p) (parseEvents evs))
+  | ["sysexdata", flag, vals] => "ok data=" ++ hex (Sakura.sysexData (flag == "1") (parseIntList vals))
   | ["dumptext", bin] => "ok " ++ dumpTextOp (unhex bin)
   | ["spec.c20", bin, text] => "ok " ++ specC20 (unhex bin) (String.ofList ((utf8Decode (unhex text)).map Char.ofNat))
   | ["calc_length", str, tb, d] => s!"ok out={Sakura.Len.calcLength (parseInt tb) (parseInt d) (text str)}"
